@@ -258,7 +258,6 @@ func baseSteps(tier string) []Step {
 		st("[::2]", "(union (s _ _ 2))", "slice", true),
 		st("[1::-2]", "(union (s 1 _ -2))", "slice", true),
 		{Text: "[7002:7003]", Ast: "(union (s (h lo) (h hi) _))", Kind: "slice", Multi: true, Holes: "7002=lo;7003=hi", Depth: 1},
-		{Text: "[7005:7006:7007]", Ast: "(union (s (h s3) (h e3) (h t3)))", Kind: "slice", Multi: true, Holes: "7005=s3;7006=e3;7007=t3", Depth: 1},
 		{Text: "..a", Ast: "(desc (name a))", Kind: "desc", Multi: true, Depth: 2},
 		{Text: "..*", Ast: "(desc (wild))", Kind: "desc", Multi: true, Depth: 2},
 		{Text: "..['a','b']", Ast: "(desc (multi (n a) (n b)))", Kind: "desc", Multi: true, Depth: 2},
@@ -447,6 +446,17 @@ func filterPaths(tier string, rng *rand.Rand) []Path {
 		out = append(out, mkPath(filterStep(e)))
 	}
 	return out
+}
+
+// holeSlicePaths: the slice whose start, end and step are all symbolic int64 holes, alone and next to other steps.
+// (Kept out of the general alphabet: every combination with it costs thousands of solver queries.)
+func holeSlicePaths() []Path {
+	hs := Step{Text: "[7005:7006:7007]", Ast: "(union (s (h s3) (h e3) (h t3)))", Kind: "slice", Multi: true, Holes: "7005=s3;7006=e3;7007=t3", Depth: 1}
+	a := st(".a", "(name a)", "name", false)
+	i0 := st("[0]", "(union (i 0))", "index", false)
+	w := st(".*", "(wild)", "wild", true)
+	return []Path{mkPath(hs), mkPath(a, hs), mkPath(hs, a), mkPath(i0, hs), mkPath(hs, i0), mkPath(w, hs), mkPath(hs, hs),
+		mkPath(Step{Text: "..[7005:7006:7007]", Ast: "(desc (union (s (h s3) (h e3) (h t3))))", Kind: "desc", Multi: true, Holes: "7005=s3;7006=e3;7007=t3", Depth: 2})}
 }
 
 // literalPaths: comparisons between two literals (the literal is the left operand the comparators write into).
